@@ -375,6 +375,9 @@ func (x *Exec) builtin(fr *Frame, st *State, b *ssa.Builtin, cc *ssa.CallCommon,
 	case "copy":
 		unsupportedf("builtin copy")
 	case "ssa:wrapnilchk":
+		if args[0].T == nil {
+			return args[0]
+		}
 		x.oblige(st, "nil", Neq(args[0].T, IntLit(0)), in.Pos(), "value method called through nil pointer")
 		return args[0]
 	case "print", "println":
